@@ -20,6 +20,15 @@ def cells(tier: str) -> dict:
 
     for kind in ("dres", "wres", "dgroup", "dtask", "dparent"):
         add(f"S6[{kind}]", lambda kind=kind: S6(kind, limit="2h" if kind[0] == "d" else "5h"), H, 6 * H)
+    # limits that are not a whole number of slots (3.5 h with 1 h slots, 0.75 h with 30 min slots, 10.6 h per week on a group)
+    add("S6[dres,3.5h]", lambda: S6("dres", limit="3.5h"), 4 * H, 9 * H)
+    add("S6[wgroup,10.6h]", lambda: S6("wgroup", limit="10.6h"), 8 * H, 14 * H)
+
+    def half():
+        s = S6("dres", limit="0.75h")
+        s.resolution = 1800
+        return s
+    add("S6[dres,0.75h,30min]", half, 1800, 3 * H)
     # work that overruns the declared project end: the horizon is extended by the scheduler
     add("S6[dres,overrun]", lambda: S6("dres", length="1w", limit="2h"), 10 * H, 14 * H)
     add("S6[wres,overrun]", lambda: S6("wres", length="1w", limit="5h"), 6 * H, 9 * H)
